@@ -86,7 +86,7 @@ func (g *gen) pick(label string, weights []int) int {
 }
 
 var (
-	plainWords = []string{"a", "b", "foo", "bar", "Baz", "x1", "lorem", "ipsum", "é", "日本", "z", "Q", "word", "I"}
+	plainWords = []string{"東京", "Привет", "Zürich", "🎉", "e\u0301x", "naïve", "x\u2028y", "Jiří", "写真", "a", "b", "foo", "bar", "Baz", "x1", "lorem", "ipsum", "é", "日本", "z", "Q", "word", "I"}
 	punctAfter = []string{".", ",", "!", "?", ":", ";", "'", "\"", ")", ">", "-", "=", "+", "#", "$", "%", "/", "^", "~", "}", "]"}
 	strayDelim = []string{"*", "_", "`", "[", "]", "(", "!", "|", "~", "**", "#", "-", "+", ">", "=", "\"", "'", "{", "}", ":"}
 	// literal < and & that are text, not markup
@@ -99,15 +99,15 @@ var (
 	nonEscapes = []string{"\\a", "\\1", "\\é", "a\\b"}
 	mustaches  = []string{"{{ content }}", "{{ x }}", "{{x}}", "{{ 1 + 1 }}", "{{ level }}", "{{ href }}", "{{ code }}", "{{", "}}", "{{ content | upper }}", "{ { x } }", "{{ title }}", "{{ label }}", "{{{ x }}}", "{{ items[0].a }}", "{{ '<q>' }}"}
 	codeAtoms  = []string{"q\x00r", "\x01", "x", "a  b", "<q>", "&amp;", "&", "{{ x }}", "{{ content }}", "*a*", "\\*", "\\", "[l](u)", "a|b", "<!-- c -->", "'q'", "\"", "fn(a, b)", "é", "$1", "#", "-", "1.", ">", "</code>", "</pre>", "{{ code }}", "~~~", "}}"}
-	dests      = []string{"/p", "http://x.y/a?b=1&c=2", "<x y>", "/u(v)", "#frag", "/ä", "/a%20b", "/q?x={{x}}", "", "<>", "/a_b*c", "mailto:a@b.c", "//h/p", "/a\"b", "/a'b", "/%zz", "/a+b", "/#{{href}}", "javascript:alert(1)", "/a~b|c"}
+	dests      = []string{"/wiki/東京", "/Zürich", "/Jiří_Dvořák", "/写真.png", "/🎉", "/é?q=ö&r=1", "</東京 x>", "/e\u0301", "/Привет#якорь", "/a\u00a0b", "/東京(x)\"y", "/p", "http://x.y/a?b=1&c=2", "<x y>", "/u(v)", "#frag", "/ä", "/a%20b", "/q?x={{x}}", "", "<>", "/a_b*c", "mailto:a@b.c", "//h/p", "/a\"b", "/a'b", "/%zz", "/a+b", "/#{{href}}", "javascript:alert(1)", "/a~b|c"}
 	destsEsc   = []string{"/a&amp;b", "/a\\*b", "/a\\)b", "/&copy;", "/a\\\\b", "<x\\>y>"}
-	titlesSafe = []string{"t", "two words", "ti&tle", "a<q", "{{ title }}", "é", "it's", "a > b", "say (x)", "{{ x }}", "x  y", "<q>bold</q>", "&", "a & q < c"}
+	titlesSafe = []string{"Zürich 🎉", "東京 & <x>", "é\u00a0x", "Привет \u2028 мир", "e\u0301 ’q’", "t", "two words", "ti&tle", "a<q", "{{ title }}", "é", "it's", "a > b", "say (x)", "{{ x }}", "x  y", "<q>bold</q>", "&", "a & q < c"}
 	titlesEsc  = []string{"a &amp; b", "q\\\"q", "&copy; me", "a\\*b", "&#35;1", "\\\\", "&lt;b&gt;"}
-	infoSafe   = []string{"go", "c++", "go linenos", "html", "{{x}}", "a.b", "é", "x-y_z", "C#", "python3 {hl_lines=[1]}", "a<q", "a&b", "\"q\""}
+	infoSafe   = []string{"日本語", "Ünï", "🎉x", "язык {a}", "go", "c++", "go linenos", "html", "{{x}}", "a.b", "é", "x-y_z", "C#", "python3 {hl_lines=[1]}", "a<q", "a&b", "\"q\""}
 	infoEsc    = []string{"a\\*b", "a&amp;b", "&copy;", "a\\_b"}
-	urlsAngle  = []string{"http://a.b/c?d=e&f", "https://example.com/", "mailto:x@y.z", "ftp://h/p_q", "http://a.b/{{x}}", "http://a.b/a*b*", "irc://h/c#d", "http://é.fr/ä", "http://a.b/<", "http://a.b/a\\b"}
-	emails     = []string{"a@b.co", "foo.bar+x@example.com", "A_b@x-y.org"}
-	bareLinks  = []string{"www.example.com", "https://example.com/a_b", "http://a.b/?q=1&r=2", "www.a.b/c(d)", "https://x.y/p?a=b#f", "www.example.com/a~b", "http://a.b/{{x}}", "www.a.b/&amp;x", "foo@example.com", "https://a.b/*x*"}
+	urlsAngle  = []string{"https://例え.jp/パス?q=東京", "http://a.b/Zürich_é", "http://a.b/🎉", "http://a.b/c?d=e&f", "https://example.com/", "mailto:x@y.z", "ftp://h/p_q", "http://a.b/{{x}}", "http://a.b/a*b*", "irc://h/c#d", "http://é.fr/ä", "http://a.b/<", "http://a.b/a\\b"}
+	emails     = []string{"jiří@example.com", "a@b.co", "foo.bar+x@example.com", "A_b@x-y.org"}
+	bareLinks  = []string{"https://x.y/Zürich", "www.a.b/東京", "https://x.y/é_ö?ü=1", "www.example.com", "https://example.com/a_b", "http://a.b/?q=1&r=2", "www.a.b/c(d)", "https://x.y/p?a=b#f", "www.example.com/a~b", "http://a.b/{{x}}", "www.a.b/&amp;x", "foo@example.com", "https://a.b/*x*"}
 )
 
 // word draws a plain word that starts with a letter (so that no list marker, no digit run and no
@@ -442,11 +442,13 @@ func (g *gen) item(depth int, oneLine bool) string {
 		return g.refLink(depth, oneLine)
 	case 11:
 		alt := g.word()
-		switch g.n("alt", 0, 10) {
+		switch g.n("alt", 0, 11) {
 		case 9:
 			if g.allow(fFalse) {
 				alt = "false"
 			}
+		case 11:
+			alt = g.of("altU", []string{"写真 🎉", "Zürich & <é>", "e\u0301 \u00a0x", "Привет"})
 		case 10:
 			if g.allow(fNUL) {
 				alt = "a\x00lt"
